@@ -11,8 +11,13 @@ const CTXS: &[&str] = &[
     "(let ((v •)) (set! n (+ n 100)) (list n v))",
     "(list (pp))",
     "(map (lambda (x) (list x •)) '(1 2))",
+    "(map (lambda (x) (if (= x 2) • x)) '(1 2 3))",
     "(if • 'yes 'no)",
     "(car (list • 2))",
+    // heap-allocated operands evaluated before the capture: they must keep their values across re-entries
+    "(list (list 'p 'q) (vector 1 \"s\") •)",
+    "(cons (string-append \"a\" \"b\") •)",
+    "(apply list (list 'h) • (list (list 'z)))",
 ];
 
 /// receivers: (text, how k is stored: 0 = not stored, 1 = continuation, 2 = in a list, 3 = in a closure, 4 = in a vector)
@@ -48,7 +53,7 @@ fn invokers(store: u8) -> Vec<String> {
     ]
 }
 
-const FRAMES: usize = 3;
+const FRAMES: usize = 4;
 
 fn body(ctx: &str, recv: &str, store: u8, inloop: bool) -> String {
     let callcc = format!("(call/cc {})", recv);
@@ -58,13 +63,17 @@ fn body(ctx: &str, recv: &str, store: u8, inloop: bool) -> String {
     } else {
         " (list r loc (car cell))".to_string()
     };
+    // the log keeps the first-pass result itself (a later re-entry must not change an object already delivered),
+    // except where the context has heap-allocated operands: there it keeps a copy, so that those operands stay
+    // reachable only through the continuation
+    let logged = if ctx.contains("(list 'p 'q)") || ctx.contains("string-append") || ctx.contains("(list 'h)") { "(cp r)" } else { "r" };
     format!(
-        "(let ((loc 1) (cell (list 1))) (let ((r {})) (set! loc (+ loc 1)) (set-car! cell (+ (car cell) 1)) (set! log (cons (list 'after r loc (car cell)) log)){}))",
-        site, tail
+        "(let ((loc 1) (cell (list 1))) (let ((r {})) (set! loc (+ loc 1)) (set-car! cell (+ (car cell) 1)) (set! log (cons (list 'after {} loc (car cell)) log)){}))",
+        site, logged, tail
     )
 }
 
-const HEAD: &str = "(define k #f) (define k2 #f) (define n 0) (define m 0) (define log '()) (define (deep d th) (if (= d 0) (th) (+ 1 (deep (- d 1) th))))";
+const HEAD: &str = "(define k #f) (define k2 #f) (define n 0) (define m 0) (define log '()) (define (deep d th) (if (= d 0) (th) (+ 1 (deep (- d 1) th)))) (define (deepl d th) (if (= d 0) (th) (cons d (deepl (- d 1) th)))) (define (cp x) (cond ((pair? x) (cons (cp (car x)) (cp (cdr x)))) ((vector? x) (list->vector (cp (vector->list x)))) ((string? x) (string-append x)) (else x)))";
 
 /// All programs with at most `max_inv` later invocation forms.
 pub fn programs(max_inv: u32) -> Vec<String> {
@@ -81,7 +90,9 @@ pub fn programs(max_inv: u32) -> Vec<String> {
                     let f1 = match frame {
                         0 => b.clone(),
                         1 => format!("((lambda args (list args {})) 1 2 3)", b),
-                        _ => format!("(define (t2 x) (list x {})) (define (t1 a b) (t2 a)) (t1 1 2)", b),
+                        2 => format!("(define (t2 x) (list x {})) (define (t1 a b) (t2 a)) (t1 1 2)", b),
+                        // captured 60 frames deep (deeper than the VM's initial stack), re-entered from later forms
+                        _ => format!("(deepl 60 (lambda () {}))", b),
                     };
                     let inv = invokers(*store);
                     let mut seqs: Vec<Vec<usize>> = vec![vec![]];
@@ -142,8 +153,10 @@ pub fn run(ctx: &Ctx) -> i32 {
             beat(text);
             acc.evals += 1;
             if st.pair.is_none() || st.used >= 200 {
-                let im = Impl::new();
+                let mut im = Impl::new();
                 let m = new_model(&im);
+                // a collection before every top-level form: what a stored continuation needs must survive it
+                im.collect_before_each_form = true;
                 st.pair = Some((im, m));
                 st.used = 0;
             }
@@ -163,6 +176,7 @@ pub fn run(ctx: &Ctx) -> i32 {
                 Verdict::Mismatch { form, expected, observed, what } => {
                     let fresh = {
                         let mut im2 = Impl::new();
+                        im2.collect_before_each_form = true;
                         let mut m2 = new_model(&im2);
                         run_session_on(&mut m2, &mut im2, &forms).verdict
                     };
@@ -187,7 +201,7 @@ pub fn run(ctx: &Ctx) -> i32 {
     rep.transitions = Some(*acc.counters.get("model_steps").unwrap_or(&0));
     rep.traces_validated = Some(acc.nontrivial);
     rep.rule = format!(
-        "The full product: call/cc position ({} contexts: operand 2 of 3, last operand, variadic argument, let binding, tail of a procedure, inside a map callback, if test, nested operand) x receiver ({}: returns normally, escapes at once, escapes from a nested operand, a builtin, stores k in a variable / list / closure / vector-then-escapes) x surrounding frame (top level, variadic frame, after a different-arity tail call) x same-form re-entry loop (no / twice via a counter) x every sequence of <= {} later top-level invocation forms out of 8 (direct, guarded loop, inside map / for-each callbacks, inside the extent of a second continuation, from depth 3, from an operand position, re-entering the second continuation) = {} programs; each program also mutates a captured local and captured data between capture and re-entry and logs it. Every form's value and the log are compared with the reference CEK machine. Non-trivial = agreement on every form.",
+        "The full product: call/cc position ({} contexts: operand 2 of 3, last operand, variadic argument, let binding, tail of a procedure, inside a map callback, if test, nested operand, after heap-allocated operands (list, cons, apply)) x receiver ({}: returns normally, escapes at once, escapes from a nested operand, a builtin, stores k in a variable / list / closure / vector-then-escapes) x surrounding frame (top level, variadic frame, after a different-arity tail call, 60 non-tail frames deep) x same-form re-entry loop (no / twice via a counter) x every sequence of <= {} later top-level invocation forms out of 8 (direct, guarded loop, inside map / for-each callbacks, inside the extent of a second continuation, from depth 3, from an operand position, re-entering the second continuation) = {} programs; each program also mutates a captured local and captured data between capture and re-entry and logs it (the log keeps the delivered result itself - a re-entry must not change an object already delivered - or, in the contexts with heap-allocated operands, a copy, so that those operands stay reachable only through the continuation). A collection is forced before every top-level form (heap audit attached). Every form's value and the log are compared with the reference CEK machine. Non-trivial = agreement on every form.",
         CTXS.len(), RECVS.len(), max_inv, progs.len()
     );
     rep.extra("programs", json!(progs.len()));
